@@ -1,5 +1,8 @@
 import MindsVerif.Lemmas.SemJoin
 import MindsVerif.Lemmas.SemPlan2
+import MindsVerif.Lemmas.SemPlan3
+import MindsVerif.Lemmas.SemSetOps
+import MindsVerif.Lemmas.SemChain
 /-!
 # C08 — executing a federated plan returns what the original query returns
 
@@ -26,9 +29,11 @@ Proved, for ALL table contents (induction over lists, no enumeration):
 * `C08_partial`   the composition: for inner and left joins, the plan shape
   fetch(L | pL) ; DISTINCT key ; fetch(R | pR ∧ key IN …) ; join ; WHERE w   equals   join ; WHERE w
   under exactly the side conditions above, stated over abstract predicates (`w`, `pL`, `pR`).
-* `C08_partial_model`   the assembled fragment theorem: for every inner-join query of `Sem.Q2` without LIMIT (any
-  WHERE tree: AND / OR / NOT), and every database, `execPlan (plan q) db = evalQuery q db`.  The LEFT-join and LIMIT
-  cases are proved at component level only (`C08_partial_left`, `C08_partial_limit`), not assembled.
+* `C08_union_all_compositional`, `C08_union_distinct_compositional`, `C08_cte_compositional`   set operations and
+  CTE substitution are compositional over operand plans (abstract operands).
+* `C08_partial_model`   the assembled fragment theorem: for every query of `Sem.Q2` (inner / LEFT / RIGHT / FULL join,
+  any WHERE tree, with or without LIMIT) satisfying the decidable side condition `planSound q`, and every database,
+  `execPlan (plan q) db = evalQuery q db`.  Corollaries `C08_partial_model_inner`, `C08_partial_model_left_limit`.
 -/
 set_option linter.unusedSimpArgs false
 namespace MindsVerif.Props.C08
@@ -228,17 +233,109 @@ example : ∃ (w pL pR : Row → Bool), (∀ l r, w (l ++ r) = true → pL l = t
   ⟨fun x => x.get (0, 0) == .int 1 && x.get (1, 0) == .int 1, fun _ => true, fun _ => true,
    fun _ _ _ => rfl, fun _ _ _ => rfl, ⟨[((0, 0), .int 1), ((1, 0), .int 1)], by decide⟩, ⟨[], by decide⟩⟩
 
-/-- **C08_partial_model**: the model plan of the transcribed planner is correct on the fragment
-"inner join, no LIMIT" — for ALL WHERE trees and ALL databases.  The excluded classes are inhabited:
-`C08_witness_limit_inner` (LIMIT), `C08_witness_isnull` / `C08_witness_semi_*` (outer joins). -/
-theorem C08_partial_model (q : Q2) (db : DB) (hk : q.kind = .inner) (hl : q.limit = none) :
-    execPlan (plan q) db = evalQuery q db :=
-  plan2_inner_sound q db hk hl
+/-- **C08_partial_model**: the model plan of the transcribed planner returns exactly what the query returns, for ALL
+databases, for every query of the two-table fragment — every join kind, any WHERE tree, with or without LIMIT — that
+satisfies the decidable side condition `planSound q = nullSafe q && limitSound q`:
 
-/-- non-vacuity: a query with an AND / OR / NOT tree satisfies the hypotheses -/
-example : let q : Q2 := { kind := .inner, c0 := 0, c1 := 0, limit := none,
-                          w := some (.and (.cmpC .gt 1 1 (.int 0)) (.not (.or (.isNull 0 1) (.cmpCC .lt 1 2)))) }
-    q.kind = .inner ∧ q.limit = none := ⟨rfl, rfl⟩
+* `nullSafe`: the fetch of an operand that the join pads with NULLs (right operand of LEFT/FULL, left operand of
+  RIGHT/FULL) receives only NULL-rejecting pushed filters (`col <op> const`, not `col IS NULL`);
+* `limitSound`: LIMIT is not pushed into the first fetch, or the join is a LEFT join, WHERE is absent or a conjunction
+  of tests on the first table only (so it is evaluated completely inside that fetch) and there is no GROUP BY / HAVING.
+
+Each way of violating the condition is inhabited by a witness on which the plan is wrong:
+`C08_witness_isnull` (¬nullSafe), `C08_witness_limit_inner` (LIMIT, not a LEFT join), `C08_witness_limit_where`
+(LIMIT, LEFT join, residual WHERE), `C08_witness_limit_group` (grouping). -/
+theorem C08_partial_model (q : Q2) (db : DB) (h : planSound q = true) :
+    execPlan (plan q) db = evalQuery q db :=
+  plan2_sound q db h
+
+/-- corollary: every inner join without LIMIT (any WHERE tree) -/
+theorem C08_partial_model_inner (q : Q2) (db : DB) (hk : q.kind = .inner) (hl : q.limit = none) :
+    execPlan (plan q) db = evalQuery q db := by
+  apply plan2_sound
+  simp [planSound, nullSafe, limitSound, plan, hk, hl]
+
+/-- corollary: LEFT join with LIMIT and a WHERE on the first table only -/
+theorem C08_partial_model_left_limit (q : Q2) (db : DB) (hk : q.kind = .left) (hw : whereLeftOnly q.w = true)
+    (hg : q.groupBy = false) (hh : q.having = false) : execPlan (plan q) db = evalQuery q db := by
+  apply plan2_sound
+  have h1 : pushedNullSafe 1 q.w = true := by
+    cases hq : q.w with
+    | none => simp [pushedNullSafe, pushedFor]
+    | some e =>
+      have hp : e.pureConj 0 = true := by simpa [whereLeftOnly, hq] using hw
+      obtain ⟨h1, h2, _⟩ := pure_facts 0 e hp
+      simp only [pushedNullSafe, pushedFor, h1, Bool.false_eq_true, if_false, List.all_eq_true, List.mem_filter]
+      intro x hx
+      have := h2 x hx.1
+      simp [this] at hx
+  simp [planSound, nullSafe, limitSound, hk, hw, hg, hh, h1, JoinKind.isLeft]
+
+/-- non-vacuity / coverage of `planSound` (by evaluation): LEFT + WHERE on both tables without LIMIT, LEFT + LIMIT +
+WHERE on the first table, RIGHT and FULL with NULL-rejecting filters, inner with NOT / OR -/
+def exW1 : Expr := .and (.cmpC .gt 1 1 (.int 0)) (.cmpC .eq 0 2 (.int 1))
+def exW2 : Expr := .and (.cmpC .gt 0 1 (.int 0)) (.isNull 0 2)
+def exW3 : Expr := .and (.cmpC .gt 0 1 (.int 0)) (.cmpC .lt 1 1 (.int 2))
+def exW4 : Expr := .and (.cmpC .gt 1 1 (.int 0)) (.not (.or (.isNull 0 1) (.cmpCC .lt 1 2)))
+example : planSound { kind := .left, c0 := 0, c1 := 0, limit := none, w := some exW1 } = true := by decide
+example : planSound { kind := .left, c0 := 0, c1 := 0, limit := some 2, w := some exW2 } = true := by decide
+example : planSound { kind := .right, c0 := 0, c1 := 0, limit := none, w := some (.cmpC .gt 0 1 (.int 0)) } = true := by
+  decide
+example : planSound { kind := .full, c0 := 0, c1 := 0, limit := none, w := some exW3 } = true := by decide
+example : planSound { kind := .inner, c0 := 0, c1 := 0, limit := none, w := some exW4 } = true := by decide
+/-- the witness queries violate it -/
+example : planSound isnullQ = false ∧ planSound limQ = false := by decide
+
+/-- LEFT join + LIMIT 1 + a WHERE on the second table: the first left row has no partner with `y = 1` -/
+def limWhereQ : Q2 := { kind := .left, c0 := 0, c1 := 0, w := some (.cmpC .eq 1 1 (.int 1)), limit := some 1 }
+def limWhereDB : DB := { t0 := [[.int 1, .int 0], [.int 2, .int 0]], t1 := [[.int 2, .int 1]], n0 := 2, n1 := 2 }
+
+theorem C08_witness_limit_where :
+    planSound limWhereQ = false ∧ execPlan (plan limWhereQ) limWhereDB ≠ evalQuery limWhereQ limWhereDB := by decide
+
+/-! ## three-table left-deep chains (component level) -/
+
+/-- LIMIT n in the fetch of the first table of `(L LEFT JOIN R1) LEFT JOIN R2` (what `check_use_limit` allows when the
+join of the second table is spelled `LEFT JOIN`, see `C08_useLimit_third`; sound only if the LAST join is LEFT too) -/
+theorem C08_T83_limit_left_left {α β γ δ ε : Type} (on1 : α → β → Bool) (mk1 : α → β → γ) (nr1 : β)
+    (on2 : γ → δ → Bool) (mk2 : γ → δ → ε) (nr2 : δ) (n : Nat) (L : List α) (R1 : List β) (R2 : List δ) :
+    (leftJoin on2 mk2 nr2 (leftJoin on1 mk1 nr1 (L.take n) R1) R2).take n
+      = (leftJoin on2 mk2 nr2 (leftJoin on1 mk1 nr1 L R1) R2).take n :=
+  limit_left_left_join on1 mk1 nr1 on2 mk2 nr2 n L R1 R2
+
+/-- the IN filter of the third table uses the DISTINCT keys of the FETCH `F` of an earlier table: sound for an inner /
+left join with the two-table result `J` whenever every row of `J` carries a row of `F` or a NULL-padded one -/
+theorem C08_T81_third_table (F : List TRow) (n c0 c1 : Nat) (J : List (TRow × TRow)) (R : List TRow) (nr : TRow)
+    (hJ : ∀ x ∈ J, x.1 ∈ F ∨ x.1 = nullRow n) :
+    let on := fun (x : TRow × TRow) (r : TRow) => cmpVal .eq (x.1.col c0) (r.col c1) == .t
+    let s := fun (r : TRow) => sqlIn (r.col c1) (distinct (F.map fun l => l.col c0)) == .t
+    innerJoin on Prod.mk J (R.filter s) = innerJoin on Prod.mk J R ∧
+    leftJoin on Prod.mk nr J (R.filter s) = leftJoin on Prod.mk nr J R := by
+  intro on s
+  exact ⟨third_table_restrict_inner on Prod.mk s J R (third_table_semi_ok F n c0 c1 J hJ),
+         third_table_restrict_left on Prod.mk nr s J R (third_table_semi_ok F n c0 c1 J hJ)⟩
+
+/-! ## UNION / CTE planning is compositional -/
+
+/-- `plan_union` (UNION ALL): operand plans correct up to order ⇒ the UnionStep result is the union up to order -/
+theorem C08_union_all_compositional {α : Type} [BEq α] (A A' B B' : List α) (hA : MEq A A') (hB : MEq B B') :
+    MEq (A ++ B) (A' ++ B') :=
+  unionAll_compositional A A' B B' hA hB
+
+/-- `plan_union` (UNION, unique = True): operand plans returning the same rows ⇒ the two results are permutations of
+each other (and duplicate-free: `nodup_dedupL`) -/
+theorem C08_union_distinct_compositional {α : Type} [DecidableEq α] (A A' B B' : List α)
+    (hA : ∀ x, x ∈ A ↔ x ∈ A') (hB : ∀ x, x ∈ B ↔ x ∈ B') :
+    (dedupL (A ++ B)).Perm (dedupL (A' ++ B')) :=
+  unionDistinct_compositional A A' B B' hA hB
+
+/-- `plan_cte`: the CTE body is planned once, its result stored under the CTE name and substituted by name; if the
+body's plan returns the body's rows, the plan of `WITH n AS (body) main` returns the rows of the statement.  (The name
+lookup itself is where the real planner errs: KF-C08-15, KF-C08-16.) -/
+theorem C08_cte_compositional (n : String) (body main : NamedQuery) (bodyPlan : (String → Table) → Table)
+    (env : String → Table) (h : bodyPlan env = body env) :
+    execWith n bodyPlan main env = evalWith n body main env :=
+  cte_compositional n body main bodyPlan env h
 
 /-- the full statement is false -/
 theorem C08_not_full : ¬ C08_full := fun h => C08_witness_limit_inner (h limQ limDB)
